@@ -76,28 +76,36 @@ def _codec(ctx):
     else:
         raise AnalysisError(f"attrib_and_val_to_str: unrecognised first test `{t}`")
     wt = ' '.join(norm(s) for s in walk_local(w.node) if isinstance(s, ast.stmt))
-    ctx.check('attribute in Config._BOOL_TYPE_ATTRIBUTES' in wt and 'return attribute' in wt
+    ctx.shape('attribute in Config._BOOL_TYPE_ATTRIBUTES' in wt and 'return attribute' in wt
               and "return f'{attribute}.{value}'" in wt.replace('"', "'")
               and "attribute in ['default_ns', 'default_ew']" in wt and 'return value[0]' in wt, 'TBL',
-              'writer: True -> name, False/int/layout -> name.value, direction -> first letter',
-              detail_bad="attrib_and_val_to_str branches changed", key="TBL|attrib_and_val_to_str|branches")
+              'writer: True -> name, False/int/layout -> name.value, direction -> first letter')
     d = ctx.repo.func('Config.decompile_to_text')
     dt = ' '.join(norm(s) for s in walk_local(d.node) if isinstance(s, ast.stmt))
-    ctx.check('for att in Config._CONFIG_ATTRIBUTES' in dt and 'attrib_and_val_to_str(att, getattr(self, att))' in dt
-              and "','.join(write_vals)" in dt, 'TBL', 'decompile_to_text writes every setting, comma separated',
-              detail_bad="decompile_to_text changed", key="TBL|decompile_to_text")
+    ctx.shape('for att in Config._CONFIG_ATTRIBUTES' in dt and 'attrib_and_val_to_str(att, getattr(self, att))' in dt
+              and "','.join(write_vals)" in dt, 'TBL', 'decompile_to_text writes every setting, comma separated')
     # reader
     r = ctx.repo.func('Config._text_to_attributes')
     rt = ' '.join(norm(s) for s in walk_local(r.node) if isinstance(s, ast.stmt))
-    ctx.check("in Config._BOOL_TYPE_ATTRIBUTES" in rt and 'default_bool=True' in rt
+    ctx.shape("in Config._BOOL_TYPE_ATTRIBUTES" in rt and 'default_bool=True' in rt
               and 'line in MasterConfig._LEGAL_NS' in rt and 'line in MasterConfig._LEGAL_EW' in rt
               and 'line in _IMPLEMENTED_LAYOUTS' in rt and 'self._set_str_to_values(line)' in rt, 'TBL',
-              'reader handles bare bools, bare directions, bare layouts and name.value pairs',
-              detail_bad="_text_to_attributes branches changed", key="TBL|_text_to_attributes|branches")
-    pat_split = [ctx.fold.eval(c.args[0], {}, r.module.name) for c in walk_local(r.node)
-                 if isinstance(c, ast.Call) and dotted(c.func) == 're.split']
-    ctx.check(r'[;,]' in pat_split, 'TBL', "reader splits settings on ',' / ';'",
-              detail_bad=f"split patterns {pat_split}", key="TBL|_text_to_attributes|split")
+              'reader handles bare bools, bare directions, bare layouts and name.value pairs')
+    from .. import rx as _rx
+
+    def split_langs(fi_):
+        out = []
+        for c in walk_local(fi_.node):
+            if isinstance(c, ast.Call) and dotted(c.func) == 're.split' and c.args:
+                v = ctx.fold.eval(c.args[0], ctx.fold.func_env(fi_), fi_.module.name)
+                if isinstance(v, str):
+                    out.append((v, _rx.Lang(v, 0)))
+        return out
+    seps = split_langs(r)
+    full = [p_ for p_, L_ in seps if L_.fullmatch(',') and L_.fullmatch(';')]
+    part = [p_ for p_, L_ in seps if L_.fullmatch(',') != L_.fullmatch(';')]
+    ctx.tri(bool(full), bool(part) and not full, 'TBL', "reader splits settings on ',' and ';'",
+            detail_bad=f"split pattern {part} accepts only one of the documented separators", key="TBL|_text_to_attributes|split")
     s = ctx.repo.func('Config._set_str_to_values')
     cfg, _ = flow.analyse(s.node)
     raises = [n for n in walk_local(s.node) if isinstance(n, ast.Raise) and 'ValueError' in norm(n)
@@ -110,24 +118,23 @@ def _codec(ctx):
     ctx.check(ok, 'TBL', 'unknown setting name -> ValueError before anything is stored',
               detail_bad="the unknown-name check no longer dominates setattr", key="TBL|_set_str_to_values|unknown")
     st = ' '.join(norm(x) for x in walk_local(s.node) if isinstance(x, ast.stmt))
-    ctx.check("re.split('[\\\\.=:]', attrib_val)" in st, 'TBL', "reader splits name/value on '.', '=' or ':'",
-              detail_bad="name/value separator changed", key="TBL|_set_str_to_values|split")
+    seps2 = split_langs(s)
+    full2 = [p_ for p_, L_ in seps2 if all(L_.fullmatch(ch) for ch in '.=:')]
+    part2 = [p_ for p_, L_ in seps2 if any(L_.fullmatch(ch) for ch in '.=:') and not all(L_.fullmatch(ch) for ch in '.=:')]
+    ctx.tri(bool(full2), bool(part2) and not full2, 'TBL', "reader splits name/value on '.', '=' or ':'",
+            detail_bad=f"split pattern {part2} no longer accepts all of '.', '=', ':'", key="TBL|_set_str_to_values|split")
     for cat, needle in (('bool', 'Config._BOOL_TYPE_ATTRIBUTES'), ('int', 'Config._INT_TYPE_ATTRIBUTES'),
                         ('layout', "attribute == 'layout'"), ('default_ns', 'verify_default_ns(value)'),
                         ('default_ew', 'verify_default_ew(value)')):
-        ctx.check(needle in st, 'SIB', f"_set_str_to_values validates {cat} values",
-                  detail_bad=f"no {cat} validation in the text reader (from_dict has it)",
-                  key=f"SIB|_set_str_to_values|{cat}")
+        ctx.shape(needle in st, 'SIB', f"_set_str_to_values validates {cat} values")
     fd = ctx.repo.func('Config.from_dict')
     ft = ' '.join(norm(x) for x in walk_local(fd.node) if isinstance(x, ast.stmt))
     for needle in ('cls._BOOL_TYPE_ATTRIBUTES', 'cls._INT_TYPE_ATTRIBUTES', 'verify_default_ns(val)', 'verify_default_ew(val)'):
-        ctx.check(needle in ft, 'SIB', f"from_dict validates ({needle})",
-                  detail_bad="from_dict validation changed", key=f"SIB|from_dict|{needle}")
+        ctx.shape(needle in ft, 'SIB', f"from_dict validates ({needle})")
     sv = ctx.repo.func('config.config:str_to_value')
     vt = ' '.join(norm(x) for x in walk_local(sv.node) if isinstance(x, ast.stmt))
-    ctx.check("text == 'None'" in vt and "text == 'True'" in vt and "text == 'False'" in vt and 'int(text)' in vt,
-              'TBL', "str_to_value decodes None/True/False/int", detail_bad="str_to_value changed",
-              key="TBL|str_to_value")
+    ctx.shape("text == 'None'" in vt and "text == 'True'" in vt and "text == 'False'" in vt and 'int(text)' in vt,
+              'TBL', "str_to_value decodes None/True/False/int")
 
 
 def _setters(ctx):
@@ -138,13 +145,11 @@ def _setters(ctx):
         if len(setters) != 1:
             raise AnalysisError(f"{cls}.config setter not found")
         t = ' '.join(norm(s) for s in ast.walk(setters[0]) if isinstance(s, ast.stmt))
-        ctx.check(f"for attrib in Config.{table}" in t and 'value = getattr(new_config, attrib)' in t
+        ctx.shape(f"for attrib in Config.{table}" in t and 'value = getattr(new_config, attrib)' in t
                   and 'if value is not None' in t and 'setattr(self, attrib, value)' in t, 'SIB',
-                  f"{cls}.config setter applies every non-None setting of Config.{table}",
-                  detail_bad=f"{cls}.config setter changed", key=f"SIB|{cls}.config.setter")
-        ctx.check('raise ConfigError(new_config)' in t and 'Config(new_config)' in t, 'SIB',
-                  f"{cls}.config setter: str/None -> Config, other types -> ConfigError",
-                  detail_bad="type handling changed", key=f"SIB|{cls}.config.setter|types")
+                  f"{cls}.config setter applies every non-None setting of Config.{table}")
+        ctx.shape('raise ConfigError(new_config)' in t and 'Config(new_config)' in t, 'SIB',
+                  f"{cls}.config setter: str/None -> Config, other types -> ConfigError")
         # defaults assigned before `self.config = config`, no unguarded store after
         init = ctx.repo.func(f"{cls}.__init__")
         names = set(_cfg(ctx, table))
@@ -224,16 +229,74 @@ def _lock(ctx, fi, kwargs, mapping, cls):
                           'derives from the attribute when the argument is None',
                           f"`{kw}` never falls back to the configured attribute self.{p}",
                           key=f"LOCK|{fi.qualname}|{kw}|attr|{p}")
+    # once a parameter is locked down from its attribute, the attribute is not
+    # read again (a later `self.P` bypasses a given argument)
+    locked = {}
+    for n in walk_local(fi.node):
+        if isinstance(n, ast.Assign) and isinstance(n.targets[0], ast.Name) \
+                and n.targets[0].id in fi.params() and any(
+                    isinstance(x, ast.Attribute) and norm(x) == f"self.{n.targets[0].id}" for x in ast.walk(n.value)):
+            locked.setdefault(n.targets[0].id, []).append(n)
+    for p_, assigns in locked.items():
+        allowed = {id(x) for a in assigns for x in ast.walk(a.value)}
+        for a in assigns:
+            for t_, _pol in guards(a):
+                allowed |= {id(x) for x in ast.walk(t_)}
+        stray = [x for x in walk_local(fi.node) if isinstance(x, ast.Attribute) and isinstance(x.ctx, ast.Load)
+                 and norm(x) == f"self.{p_}" and id(x) not in allowed]
+        ctx.check(not stray, 'LOCK', f"{fi.qualname}: after the lock-down only the local `{p_}` is used",
+                  detail_bad=f"`{norm(enclosing_stmt(stray[0]))[:70] if stray else ''}` reads self.{p_} again after `{p_}` was "
+                             f"locked down: a given `{p_}` argument is bypassed there",
+                  key=f"LOCK|{fi.qualname}|stray-attr|{p_}", where=common.loc(fi, stray[0]) if stray else None)
     # every fallback is of the form `if P is None: P = self.P` (argument wins)
     for n in walk_local(fi.node):
         if isinstance(n, ast.Assign) and isinstance(n.targets[0], ast.Name) \
                 and norm(n.value) == f"self.{n.targets[0].id}" and n.targets[0].id in fi.params():
             p = n.targets[0].id
             gs = [(norm(t), pol) for t, pol in guards(n)]
-            ok = any(pol and (t == f"{p} is None" or t == f"not {p}" or f"{p} is None" in t) for t, pol in gs)
-            ctx.check(ok, 'LOCK', f"{fi.qualname}: `{p} = self.{p}` only when the argument is not given",
-                      detail_bad=f"`{norm(n)}` runs under {gs}: the attribute overrides a given argument",
-                      key=f"LOCK|{fi.qualname}|fallback-guard|{p}")
+            def absent(t, pol):
+                t2 = t.replace(f"None is {p}", f"{p} is None").replace(f"None is not {p}", f"{p} is not None")
+                if pol:
+                    return f"{p} is None" in t2 and f"{p} is not None" not in t2 or t2 == f"not {p}"
+                return t2 in (f"{p} is not None", p)
+            ok = any(absent(t, pol) for t, pol in gs)
+            bad = not gs or any((pol and t in (f"{p} is not None", p)) for t, pol in gs)
+            ctx.tri(ok, bad and not ok, 'LOCK', f"{fi.qualname}: `{p} = self.{p}` only when the argument is not given",
+                    detail_bad=f"`{norm(n)}` runs under {gs or 'no condition'}: the attribute overrides a given argument",
+                    key=f"LOCK|{fi.qualname}|fallback-guard|{p}")
+
+
+def precedence(ctx, fi, only=None, rule='LOCK'):
+    """Fallback expressions give the ARGUMENT precedence over the attribute:
+    `P = P or self.P` / `P if P is not None else self.P` are fine,
+    `P = self.P or P` lets the configured attribute override the keyword."""
+    n = 0
+    for a in walk_local(fi.node):
+        if not (isinstance(a, ast.Assign) and isinstance(a.targets[0], ast.Name) and a.targets[0].id in fi.params()):
+            continue
+        p = a.targets[0].id
+        if only and p not in only:
+            continue
+        v = a.value
+        if isinstance(v, ast.BoolOp) and isinstance(v.op, ast.Or):
+            ops = [norm(x) for x in v.values]
+            if p in ops and f"self.{p}" in ops:
+                n += 1
+                ctx.check(ops.index(p) < ops.index(f"self.{p}"), rule,
+                          f"{fi.qualname}: `{norm(a)}` lets the argument win",
+                          detail_bad=f"`{norm(a)}`: the configured attribute overrides a given `{p}` argument "
+                                     f"(the keyword must win over the config)",
+                          key=f"{rule}|{fi.qualname}|precedence|{p}", where=common.loc(fi, a))
+        elif isinstance(v, ast.IfExp):
+            body, orelse, test = norm(v.body), norm(v.orelse), norm(v.test)
+            if {body, orelse} == {p, f"self.{p}"}:
+                n += 1
+                arg_when_given = (body == p and ('is not None' in test or test == p)) or \
+                                 (orelse == p and ('is None' in test and 'is not None' not in test or test == f"not {p}"))
+                ctx.check(arg_when_given, rule, f"{fi.qualname}: `{norm(a)}` lets the argument win",
+                          detail_bad=f"`{norm(a)}`: the attribute is used although `{p}` was given",
+                          key=f"{rule}|{fi.qualname}|precedence|{p}", where=common.loc(fi, a))
+    return n
 
 
 def _lock_plssdesc(ctx):
@@ -252,6 +315,7 @@ def _lock_plssdesc(ctx):
     ctx.check(not extra, 'LOCK', 'PLSSDesc.parse: every keyword is covered by the LOCK table',
               detail_bad=f"new parse() keywords without a rule: {sorted(extra)}", key="LOCK|PLSSDesc.parse|table")
     ctx.attempt(_lock, fi, kw, mapping, 'PLSSDesc')
+    precedence(ctx, fi)
     ctx.floor('PLSSDesc.parse keywords', len(fi.params()), 16)
     # parser keywords exist
     pp = ctx.repo.func('PLSSParser.__init__')
@@ -268,17 +332,15 @@ def _lock_plssdesc(ctx):
               key="LOCK|PLSSDesc.parse|handed_down_config")
     # require_colon lattice
     t = ' '.join(norm(s) for s in walk_local(fi.node) if isinstance(s, ast.stmt))
-    ctx.check('require_colon = sec_colon_required' in t
+    ctx.shape('require_colon = sec_colon_required' in t
               and 'if sec_colon_cautious and (not sec_colon_required)' in t
               and 'require_colon = SecFinder.SEC_COLON_CAUTIOUS' in t, 'LOCK',
-              'require_colon = required, else cautious, else False',
-              detail_bad="require_colon combination changed", key="LOCK|PLSSDesc.parse|require_colon")
+              'require_colon = required, else cautious, else False')
     prop = ctx.repo.func('PLSSDesc.require_colon')
     t2 = ' '.join(norm(s) for s in walk_local(prop.node) if isinstance(s, ast.stmt))
-    ctx.check('required = self.sec_colon_required' in t2
+    ctx.shape('required = self.sec_colon_required' in t2
               and 'if self.sec_colon_cautious and (not self.sec_colon_required)' in t2, 'SIB',
-              'PLSSDesc.require_colon property combines the two attributes the same way',
-              detail_bad="require_colon property changed", key="SIB|PLSSDesc.require_colon")
+              'PLSSDesc.require_colon property combines the two attributes the same way')
 
 
 def _lock_tract(ctx):
@@ -293,6 +355,7 @@ def _lock_tract(ctx):
     # qq_depth is special: the parser receives the keyword itself; the attribute
     # fallback is folded into min/max
     ctx.attempt(_lock, fi, kw, {k: v for k, v in mapping.items() if k != 'qq_depth'}, 'Tract')
+    precedence(ctx, fi)
     prov = flow.provenance(fi.node, kw['qq_depth']) if 'qq_depth' in kw else set()
     ctx.check('qq_depth' in flow.prov_params(prov), 'LOCK', 'Tract.parse: keyword qq_depth reaches the parser',
               detail_bad="qq_depth keyword dropped", key="LOCK|Tract.parse|qq_depth")
@@ -302,26 +365,35 @@ def _lock_tract(ctx):
                   f"Tract.parse: {p} is overridden by qq_depth (keyword, else attribute)",
                   detail_bad=f"{p} no longer takes qq_depth into account", key=f"LOCK|Tract.parse|{p}|qq_depth")
     # a given min OR max keyword disables the attribute fallback self.qq_depth
-    flags = {}
-    for n in walk_local(fi.node):
-        if isinstance(n, ast.Assign) and norm(n) == 'use_min_max = True':
-            for t, pol in guards(n):
-                flags[norm(t)] = pol
-    for p in ('qq_depth_min', 'qq_depth_max'):
-        ctx.check(flags.get(f"{p} is None") is False, 'LOCK',
-                  f"Tract.parse: a given {p} keyword wins over the configured qq_depth",
-                  detail_bad=f"passing {p}= no longer stops the attribute self.qq_depth from overriding it",
-                  key=f"LOCK|Tract.parse|use_min_max|{p}")
+    # the switch that lets the attribute self.qq_depth override min/max must
+    # depend on BOTH depth keywords (either one given disables the override)
+    sw = [n for n in walk_local(fi.node) if isinstance(n, (ast.If, ast.IfExp)) and 'self.qq_depth is not None' in norm(n.test)
+          .replace('None is not self.qq_depth', 'self.qq_depth is not None')]
+    if sw:
+        pv = set()
+        for nm in [x for x in ast.walk(sw[0].test) if isinstance(x, ast.Name)]:
+            pv |= flow.provenance(fi.node, nm, control='sentinel')
+        # conditions that dominate the switch (e.g. an enclosing `if qq_depth is None`) count too
+        for tst, pol in guards(sw[0]):
+            for nm in [x for x in ast.walk(tst) if isinstance(x, ast.Name)]:
+                pv |= flow.provenance(fi.node, nm, control='sentinel')
+        params = flow.prov_params(pv)
+        for p in ('qq_depth_min', 'qq_depth_max'):
+            ctx.check(p in params, 'LOCK', f"Tract.parse: a given {p} keyword wins over the configured qq_depth",
+                      'the attribute fallback is switched off when the keyword is given',
+                      f"whether self.qq_depth overrides min/max does not depend on the `{p}` argument: "
+                      f"parse({p}=...) alone is overridden by a configured qq_depth",
+                      key=f"LOCK|Tract.parse|use_min_max|{p}", where=common.loc(fi, sw[0]))
+    else:
+        ctx.undecided('LOCK', 'Tract.parse: depth keywords win over the configured qq_depth', 'fallback switch not recognised')
     t = ' '.join(norm(s) for s in walk_local(fi.node) if isinstance(s, ast.stmt))
-    ctx.check('elif not use_min_max and self.qq_depth is not None' in t.replace('(', '').replace(')', ''),
-              'LOCK', 'Tract.parse: self.qq_depth applies only when no depth keyword was given',
-              detail_bad="fallback condition changed", key="LOCK|Tract.parse|qq_depth-fallback")
+    ctx.shape('elif not use_min_max and self.qq_depth is not None' in t.replace('(', '').replace(')', ''),
+              'LOCK', 'Tract.parse: self.qq_depth applies only when no depth keyword was given')
     unknown = set(kw) - set(ctx.repo.func('TractParser.__init__').params())
     ctx.check(not unknown, 'LOCK', 'every keyword handed to TractParser is one of its parameters',
               detail_bad=f"unknown TractParser keywords {sorted(unknown)}", key="LOCK|Tract.parse|kwargs-exist")
-    ctx.check(norm(kw.get('text')) == 'self.desc' and norm(kw.get('parent')) == 'self', 'LOCK',
-              'Tract.parse parses self.desc with itself as parent',
-              detail_bad="TractParser text/parent changed", key="LOCK|Tract.parse|text")
+    ctx.shape(norm(kw.get('text')) == 'self.desc' and norm(kw.get('parent')) == 'self', 'LOCK',
+              'Tract.parse parses self.desc with itself as parent')
 
 
 def _forwarding(ctx):
@@ -340,9 +412,8 @@ def _forwarding(ctx):
                       detail_bad=f"{p} is forwarded as {kw.get(p)!r}", key=f"LOCK|{spec}|{p}")
     fi = ctx.repo.func('TractList.parse_tracts')
     t = ' '.join(norm(s) for s in walk_local(fi.node) if isinstance(s, ast.stmt))
-    ctx.check('if config:' in t and 'self.config_tracts(config)' in t and 'for t in self:' in t, 'LOCK',
-              'parse_tracts applies a given config to every tract, then parses every tract',
-              detail_bad="parse_tracts changed", key="LOCK|TractList.parse_tracts|config")
+    ctx.shape('if config:' in t and 'self.config_tracts(config)' in t and 'for t in self:' in t, 'LOCK',
+              'parse_tracts applies a given config to every tract, then parses every tract')
 
 
 def _deadparam(ctx):
